@@ -105,12 +105,15 @@ def _worker_chunk(args):
         "runs": 0, "stats": collections.Counter(), "fired": collections.Counter(),
         "draws": 0, "sim_time": 0.0, "schedules": set(), "states": set(),
         "nontrivial": set(), "violations": [], "digests": {}, "samples": [],
-        "wall": 0.0, "scenario": scenario,
+        "wall": 0.0, "scenario": scenario, "evaluations": 0,
     }
     for i in indices:
         seed = derive_seed(master, prop, scenario, i)
         res = one_run(mod, scenario, seed=seed)
         agg["runs"] += 1
+        agg["evaluations"] += res.get("evaluations", 1)
+        for item in res.get("items", ()):        # distinct non-trivial cases inside a run
+            agg["nontrivial"].add(hash_state(item))
         st = dict(res.get("stats", {}))
         for key in [k for k in st if k.endswith("-max")]:      # maxima, not sums
             agg["stats"][key] = max(agg["stats"].get(key, 0), st.pop(key))
@@ -125,7 +128,7 @@ def _worker_chunk(args):
             h = int.from_bytes(hashlib.blake2b(
                 str(sched).encode(), digest_size=8).digest(), "little")
             agg["schedules"].add(h)
-            if res.get("nontrivial", True):
+            if res.get("nontrivial", True) and "items" not in res:
                 agg["nontrivial"].add(h)
         for st in res.get("states", ()):
             agg["states"].add(hash_state(st))
@@ -337,7 +340,7 @@ def run_check(prop, tier, master, workers=None, runs_override=None):
         "runs": 0, "stats": collections.Counter(), "fired": collections.Counter(),
         "draws": 0, "sim_time": 0.0, "schedules": set(), "states": set(),
         "nontrivial": set(), "violations": [], "samples": [], "wall": 0.0,
-        "per_scenario": collections.Counter(),
+        "per_scenario": collections.Counter(), "evaluations": 0,
     }
     digests_a, digests_b = {}, {}
     ctx = multiprocessing.get_context("fork")
@@ -369,6 +372,7 @@ def run_check(prop, tier, master, workers=None, runs_override=None):
                 if k >= n_main:
                     continue        # recheck chunks do not count as coverage
                 total_agg["runs"] += agg["runs"]
+                total_agg["evaluations"] += agg["evaluations"]
                 total_agg["per_scenario"][agg["scenario"]] += agg["runs"]
                 for key in [k for k in agg["stats"] if k.endswith("-max")]:
                     total_agg["stats"][key] = max(total_agg["stats"].get(key, 0),
@@ -469,7 +473,8 @@ def run_check(prop, tier, master, workers=None, runs_override=None):
         "property_id": prop, "tier": tier, "seed": master,
         "level": getattr(mod, "LEVEL", "exploration"),
         "coverage": {
-            "evaluations": runs,
+            "evaluations": total_agg["evaluations"],
+            "runs": runs,
             "distinct_nontrivial": distinct,
             "rule": mod.RULE,
             "samples": samples,
